@@ -2,11 +2,13 @@
 
 from __future__ import annotations
 
+import ast
 import hashlib
 import re
 
 from ..effects import Effects
-from ..index import FuncInfo, short
+from ..facts import calls_in
+from ..index import FuncInfo, norm, short
 
 PROPERTY = "C06"
 RULES = {
@@ -46,22 +48,24 @@ INFEASIBLE = [
     {"guard": '^Value\\._remove_usage: `self\\._uses\\.pop\\(Usage\\(use, index\\)\\)`: key absent', "via": None, "why": 'a use (node, i) is registered for every non-None input slot (C01-R3a), and the caller checked old_input is not None', "requires": ()},
     {"guard": '^Node\\.replace_input_with: index < 0 or index >= len\\(self\\.inputs\\)', "via": 'Graph\\.remove|Node\\.resize_inputs|Value\\.replace_all_uses_with', "why": 'the index is drawn from range(len(node.inputs)) / from value.uses(), which are in range for their node (C01-R3a)', "requires": ()},
     {"guard": '^Value\\.name\\.setter: ', "via": 'NameAuthority\\.register_or_name_value', "why": "the name authority assigns a name only when value.name is None, and an initializer always has a name, so the setter's initializer branch is dead", "requires": ()},
-    {"guard": '^(GraphInitializers\\.__setitem__|GraphInitializers\\._set_graph|UserDict\\.__delitem__@GraphInitializers): ', "via": 'NameAuthority\\.register_or_name_value', "why": "reached only through the name setter's initializer branch, dead for a value whose name is None", "requires": ()},
-    {"guard": '^GraphInitializers\\.__setitem__: not isinstance\\(value, _core\\.Value\\)', "via": 'Value\\.name\\.setter', "why": 'the value re-keyed by the name setter is `self`, a Value', "requires": ()},
-    {"guard": '^GraphInitializers\\.__setitem__: not \\(not value\\.name\\) and key != value\\.name', "via": 'Value\\.name\\.setter', "why": 'the setter stores the new name in self._name before re-keying under the same new name', "requires": ()},
-    {"guard": '^GraphInitializers\\.__setitem__: value\\.producer\\(\\) is not None', "via": 'Value\\.name\\.setter', "why": 'an initializer has no producer (C01-R4)', "requires": ()},
-    {"guard": '^GraphInitializers\\._set_graph: value\\._graph is not None and value\\._graph is not self\\._graph', "via": 'Value\\.name\\.setter', "why": "the initializer's _graph is the graph whose initializers are re-keyed", "requires": ()},
-    {"guard": '^Value\\.name\\.setter: ', "via": 'GraphInitializers\\.__setitem__, .*Value\\.name\\.setter|Value\\.name\\.setter, .*GraphInitializers\\.__setitem__, .*Value\\.name\\.setter', "why": "__setitem__ names the value only when it has no name; re-entry of the setter from the setter's own re-keying sees name == key and returns early", "requires": ()},
+    {"guard": '^(GraphInitializers\\.(__setitem__|_check_item)|GraphInitializers\\.(_set_graph|_check_can_set_graph)|UserDict\\.__delitem__@GraphInitializers): ', "via": 'NameAuthority\\.register_or_name_value', "why": "reached only through the name setter's initializer branch, dead for a value whose name is None", "requires": ()},
+    {"guard": '^GraphInitializers\\.(__setitem__|_check_item): not isinstance\\(value, _core\\.Value\\)', "via": 'Value\\.name\\.setter', "why": 'the value re-keyed by the name setter is `self`, a Value', "requires": ()},
+    {"guard": '^GraphInitializers\\.(__setitem__|_check_item): (not \\(not value\\.name\\) and key != value\\.name|value\\.name and key != value\\.name)', "via": 'Value\\.name\\.setter', "why": 'the setter stores the new name in self._name before re-keying under the same new name', "requires": ()},
+    {"guard": '^GraphInitializers\\.(__setitem__|_check_item): value\\.producer\\(\\) is not None', "via": 'Value\\.name\\.setter', "why": 'an initializer has no producer (C01-R4)', "requires": ()},
+    {"guard": '^GraphInitializers\\.(_set_graph|_check_can_set_graph): value\\._graph is not None and value\\._graph is not self\\._graph', "via": 'Value\\.name\\.setter', "why": "the initializer's _graph is the graph whose initializers are re-keyed", "requires": ()},
+    {"guard": '^Value\\.name\\.setter: ', "via": 'GraphInitializers\\.(__setitem__|_check_item), .*Value\\.name\\.setter|Value\\.name\\.setter, .*GraphInitializers\\.(__setitem__|_check_item), .*Value\\.name\\.setter', "why": "__setitem__ names the value only when it has no name; re-entry of the setter from the setter's own re-keying sees name == key and returns early", "requires": ()},
     {"guard": '^UserDict\\.__delitem__@GraphInitializers: key of `del self\\.data\\[key\\]` absent', "via": 'Value\\.name\\.setter', "why": 'an initializer is stored under its current name (C01-R3d), which is the key popped', "requires": ()},
     {"guard": '^UserDict\\.__delitem__@GraphInitializers: key of `del self\\.data\\[key\\]` absent', "via": 'GraphInitializers\\.__delitem__', "why": '__delitem__ reads self.data[key] (KeyError before any write) before unsetting', "requires": ()},
-    {"guard": '^Graph\\._set_node_graph_to_self_and_assign_names: node\\.graph is not None and node\\.graph is not self', "via": '^onnx_ir\\._core:Graph\\.sort,', "why": 'each bucket of sorted nodes is keyed by node.graph and extended into that same graph (C12-R2)', "requires": ()},
-    {"guard": '^Graph\\._set_node_graph_to_self_and_assign_names: node\\.graph is not None and node\\.graph is not self', "via": '^onnx_ir\\._core:Node\\.__init__,', "why": 'the node under construction has self._graph = None assigned just before graph.append(self)', "requires": ()},
+    {"guard": '^Graph\\.(_set_node_graph_to_self_and_assign_names|_check_node_can_be_added): node\\.graph is not None and node\\.graph is not self', "via": '^onnx_ir\\._core:Graph\\.sort,', "why": 'each bucket of sorted nodes is keyed by node.graph and extended into that same graph (C12-R2)', "requires": ()},
+    {"guard": '^Graph\\.(_set_node_graph_to_self_and_assign_names|_check_node_can_be_added): node\\.graph is not None and node\\.graph is not self', "via": '^onnx_ir\\._core:Node\\.__init__,', "why": 'the node under construction has self._graph = None assigned just before graph.append(self)', "requires": ()},
     {"guard": '^Value\\.replace_all_uses_with: self\\.is_graph_output\\(\\) and not replace_graph_outputs', "via": '^onnx_ir\\._convenience:replace_nodes_and_values,', "why": 'replace_nodes_and_values passes replace_graph_outputs=True', "requires": ()},
     {"guard": '^Shape\\.__setitem__: self\\._frozen', "via": 'Value\\.merge_shapes', "why": 'merge_shapes copies a frozen shape before writing into it', "requires": ()},
     {"guard": '^(SymbolicDim\\.__init__|_maybe_convert_to_symbolic_dim): ', "via": 'Value\\.merge_shapes', "why": 'merged dims are taken from existing Shapes, whose elements are int or SymbolicDim', "requires": ()},
     {"guard": '^Value\\.shape\\.setter: always', "via": 'replace_nodes_and_values', "why": "old_value.shape is a Shape or None by the same setter's invariant", "requires": ()},
+    {"guard": '^UserList\\.__delitem__@_GraphIO: key of `del self\\.data\\[i\\]` absent', "via": '_GraphIO\\.__delitem__', "why": '__delitem__ reads self.data[i] (IndexError before any write) with the same index first', "requires": ()},
+    {"guard": '^DoublyLinkedSet\\.insert_(after|before): \\(value_id := id\\(value\\)\\) not in self\\._value_ids_to_boxes', "via": '^onnx_ir\\._core:Graph\\.insert_(after|before),', "why": 'the anchor was validated with `node.graph is not self` before any write; a node names a graph iff it is in its list (C01-R3b)', "requires": ('node.graph is not self',)},
     {"guard": '^Value\\.name\\.setter: ', "via": '^onnx_ir\\._convenience:rename_values,', "why": "initializer values were popped from their graphs before renaming, so the setter's initializer branch is dead", "requires": ()},
-    {"guard": '^(GraphInitializers\\.__setitem__|GraphInitializers\\._set_graph): ', "via": '^onnx_ir\\._convenience:rename_values,', "why": 'validated up front: every value is a Value, every initializer name a non-empty str without collision; values are re-added under their own new names to the graph they were popped from', "requires": ("name == ''", 'not isinstance(value, _core.Value)', 'not isinstance(name, str)')},
+    {"guard": '^(GraphInitializers\\.(__setitem__|_check_item)|GraphInitializers\\.(_set_graph|_check_can_set_graph)): ', "via": '^onnx_ir\\._convenience:rename_values,', "why": 'validated up front: every value is a Value, every initializer name a non-empty str without collision; values are re-added under their own new names to the graph they were popped from', "requires": ("name == ''", 'not isinstance(value, _core.Value)', 'not isinstance(name, str)')},
 ]
 
 
@@ -104,15 +108,101 @@ def discharged(rej, used: dict) -> str | None:
     return None
 
 
-def analyse_mutator(ef: Effects, f: FuncInfo, used: dict):
-    """[(M event, C event, [undischarged rejs], n_discharged)] grouped by C site."""
+def _loop_of(node, var: str, stop):
+    """Innermost enclosing for-loop (or comprehension) of `node` whose target is `var`."""
+    p = getattr(node, "_parent", None)
+    while p is not None and p is not stop:
+        if isinstance(p, ast.For) and (norm(p.target) == var or (isinstance(p.target, ast.Tuple) and var in [norm(e) for e in p.target.elts])):
+            return p, norm(p.iter)
+        if isinstance(p, (ast.ListComp, ast.GeneratorExp, ast.SetComp)):
+            for g in p.generators:
+                if norm(g.target) == var:
+                    return p, norm(g.iter)
+        p = getattr(p, "_parent", None)
+    return None, None
+
+
+def prevalidated(ef: Effects, f: FuncInfo, c_event, rej) -> str | None:
+    """R2 (validate-then-commit idiom): the rejection belongs to a side-effect-free checker that the mutator
+    already ran, on the same argument or over the same iterable, at a point dominating this site."""
+    site = c_event.node
+    if not isinstance(site, ast.Call) or not site.args:
+        return None
+    cfg, _ = ef.events(f)
+    cand = {rej.origin, *rej.via}
+    sn = cfg.nodes_containing(site)
+    if not sn:
+        return None
+    a2 = norm(site.args[0])
+    for x in calls_in(f):
+        if x is site or not x.args:
+            continue
+        tg, _st = ef._call_targets(f, x)
+        # dynamic dispatch may give several alternatives (one per container class): all must be side-effect
+        # free and the rejection's own checker must be among them
+        if not tg or any(ef.summary(g).mods for g in tg):
+            continue
+        # the checker called earlier is the rejection's own function, or one that can raise the very same guard
+        pure = [g for g in tg if g.key in cand or rej.key in ef.summary(g).rejs]
+        if not pure:
+            continue
+        xn = cfg.nodes_containing(x)
+        if not xn or xn[0].id == sn[0].id:
+            continue
+        xa = [norm(a) for a in x.args]
+        a1 = a2 if a2 in xa else xa[0]
+        l1, it1 = _loop_of(x, a1, f.node)
+        l2, it2 = _loop_of(site, a2, f.node)
+        if l1 is None and l2 is None and a1 == a2 and cfg.dominates(xn[0], sn[0]):
+            return f"{pure[0].local}({a1}) was called before any write"
+        if l1 is not None and l2 is None and isinstance(l1, ast.For) and it1 in (a2, f"{a2}.items()", f"{a2}.values()") and not any(
+                isinstance(n, (ast.Break, ast.Continue, ast.Return)) for n in ast.walk(l1)):
+            # the whole container is handed to a callee after each of its elements passed the checker
+            ln = [n for n in cfg.node_of(l1) if n.kind == "iter"]
+            if ln and cfg.dominates(ln[0], sn[0]):
+                return f"every element of `{a2}` passed {pure[0].local} before the container is handed over"
+        if l1 is not None and l2 is not None and l1 is not l2 and it1 == it2 and not any(
+                isinstance(n, (ast.Break, ast.Continue, ast.Return)) for n in ast.walk(l1)):
+            # the whole validation loop precedes the commit loop
+            ln = [n for n in cfg.node_of(l1) if n.kind == "iter"]
+            if (ln and cfg.dominates(ln[0], sn[0])) or not isinstance(l1, ast.For):
+                return f"every element of `{it1}` passed {pure[0].local} in an earlier loop"
+    return None
+
+
+def analyse_mutator(ef: Effects, f: FuncInfo, used: dict, own: frozenset = frozenset(), _memo=None, _depth=0):
+    """[(M event, C event, [undischarged rejs], n_discharged)] grouped by C site.
+
+    ``own``: keys of functions that are analysed (and reported) as mutators themselves; a callee among them that is
+    not atomic is reported there, not again at every caller."""
     s = ef.summary(f)
+    _memo = {} if _memo is None else _memo
     by_site: dict[int, list] = {}
     for m, c in s.dirty:
+        if getattr(c, "late", False):
+            g = c.callee
+            if g.key in own or _depth > 5:
+                continue
+            if g.key not in _memo:
+                _memo[g.key] = []
+                sub = analyse_mutator(ef, g, used, own, _memo, _depth + 1)
+                _memo[g.key] = [r for _, _, u, _ in sub for r in u]
+            inner = _memo[g.key]
+            if not inner:
+                continue
+            ent = by_site.setdefault((id(c.node), "late"), [m, c, {}, 0])
+            for r in inner:
+                r2 = type(r)(r.origin, r.cond, r.exc, r.node, (f.key, g.key, *r.via))
+                why = discharged(r2, used) or prevalidated(ef, f, c, r2)
+                if why is None:
+                    ent[2].setdefault(r.key, r)
+                else:
+                    ent[3] += 1
+            continue
         ent = by_site.setdefault(id(c.node), [m, c, {}, 0])
         for r in c.rejs:
             r2 = type(r)(r.origin, r.cond, r.exc, r.node, (f.key, *r.via))
-            why = discharged(r2, used)
+            why = discharged(r2, used) or prevalidated(ef, f, c, r)
             if why is None:
                 ent[2].setdefault(r.key, r)
             else:
@@ -127,11 +217,12 @@ def run(ctx):
     ef.compute()
     used: dict[int, int] = {}
     muts = mutators(ctx)
+    own = frozenset(f.key for f in muts)
     ctx.tables["mutators"] = [f.key for f in muts]
     ctx.tables["summary_iterations"] = ef.n_iter
     for f in muts:
         s = ef.summary(f)
-        sites = analyse_mutator(ef, f, used)
+        sites = analyse_mutator(ef, f, used, own)
         n_events = sum(len(v) for v in ef.events(f)[1].values())
         if not sites:
             ctx.ob("R1", f"{f.local}: no write precedes a rejection point", True,
